@@ -27,3 +27,53 @@ package sherpa
 //@   ensures rtCount <= old(rtCount) + 1
 //@   at call RoundTrip 1 assert proxyReq != nil && proxyReq.Method == r.Method && proxyReq.Body == r.Body && !ghost(w).started
 //@   at call RoundTrip 1 assert forall k string :: has(proxyReq.Header, k) ==> !sensHeader(k) && !hopHeader(k)
+
+// ---- C18: live delivery in the sherpa engine: in streaming mode a chunk written to the client is flushed before
+// processReadResult returns to the read loop (unless the flush itself failed, which the engine tolerates).
+//@ func (s *Service) shouldFlush
+//@   property C18
+//@   safety
+//@   requires state != nil
+//@   ensures res == state.isStreaming
+
+//@ spec func rbOK(rb *SimpleRingBuffer) bool = rb == nil || (rb.capacity >= 0 && len(rb.data) <= rb.capacity)
+//@ func (s *Service) writeData
+//@   property C18
+//@   safety
+//@   requires s != nil && w != nil && rc != nil && state != nil && rlog != nil && rbOK(state.lastChunkBuffer)
+//@   modifies ghost(w).started, ghost(w).status, gvar unflushed, gvar evBroken, state.totalBytes, state.bytesAfterDisconnect, SimpleRingBuffer.data
+//@   ensures old(evBroken) ==> evBroken
+//@   ensures state.isStreaming && res == nil && old(unflushed) == 0 ==> unflushed == 0 || evBroken
+
+//@ func (s *Service) processReadResult
+//@   property C18
+//@   safety
+//@   requires s != nil && result != nil && w != nil && rc != nil && state != nil && rlog != nil && result.n >= 0 && result.n <= len(buffer) && rbOK(state.lastChunkBuffer)
+//@   modifies ghost(w).started, ghost(w).status, gvar unflushed, gvar evBroken, state.totalBytes, state.bytesAfterDisconnect, SimpleRingBuffer.data
+//@   ensures old(evBroken) ==> evBroken
+//@   ensures state.isStreaming && res1 == nil && old(unflushed) == 0 ==> unflushed == 0 || evBroken
+
+// the last-bytes ring buffer (feeds metrics extraction, C20): slice bounds hold for every write, the buffer never grows
+// beyond its capacity
+//@ type SimpleRingBuffer
+//@   guarded_by mu: data
+//@   repinv self.capacity >= 0 && len(self.data) <= self.capacity
+
+//@ func NewSimpleRingBuffer
+//@   property C20 C18
+//@   safety
+//@   requires capacity >= 0
+//@   ensures res != nil && fresh(res) && res.capacity == capacity && len(res.data) == 0
+
+//@ func (rb *SimpleRingBuffer) Write
+//@   property C20 C18
+//@   safety
+//@   requires rb != nil
+//@   modifies rb.data
+//@   ensures res1 == nil && res0 == len(p)
+
+//@ func (rb *SimpleRingBuffer) Bytes
+//@   property C20
+//@   safety
+//@   requires rb != nil
+//@   ensures len(res) == len(rb.data)
